@@ -56,7 +56,11 @@ pub fn now_ms() -> u64 {
 }
 
 pub fn main(table: &[GrammarEntry]) {
-    std::panic::set_hook(Box::new(|_| {}));
+    // panics inside parsers are caught and judged by the checks; their default message is noise. VERIF_PANIC_MSG=1 shows
+    // them (harness debugging).
+    if std::env::var("VERIF_PANIC_MSG").is_err() {
+        std::panic::set_hook(Box::new(|_| {}));
+    }
     let argv: Vec<String> = std::env::args().collect();
     let args = Args {
         models: arg(&argv, "--models").expect("--models"),
